@@ -35,9 +35,9 @@ def run(ctx):
 
     def add(enc, n, rr, s):
         try:
-            out = sigcommon.enc_out(enc, encs[enc](rr, s, n))
+            out = {"ok": True, "v": sigcommon.enc_out(enc, encs[enc](rr, s, n))}
         except BaseException as e:  # noqa
-            out = ["exception", type(e).__name__]
+            out = {"ok": False, "exc": type(e).__name__}
         events.append({"op": "enc", "enc": enc, "canon": True, "n": n2l(n), "r": n2l(rr),
                        "s": n2l(s), "out": out})
         meta.append((enc, n, rr, s))
